@@ -237,6 +237,31 @@ impl Carrier for secrecy_10::SecretBox<i64> {
     }
 }
 
+impl Carrier for secrecy_10::SecretString {
+    fn gen_type(r: &mut Rng) -> Ty {
+        String::gen_type(r)
+    }
+    fn from_cell(t: &Ty, c: &Cell) -> Option<Self> {
+        String::from_cell(t, c).map(secrecy_10::SecretString::from)
+    }
+    fn to_cell(&self, t: &Ty) -> Cell {
+        use secrecy_10::ExposeSecret;
+        self.expose_secret().to_string().to_cell(t)
+    }
+}
+impl Carrier for secrecy_10::SecretSlice<i32> {
+    fn gen_type(r: &mut Rng) -> Ty {
+        Vec::<i32>::gen_type(r)
+    }
+    fn from_cell(t: &Ty, c: &Cell) -> Option<Self> {
+        Vec::<i32>::from_cell(t, c).map(secrecy_10::SecretSlice::from)
+    }
+    fn to_cell(&self, t: &Ty) -> Cell {
+        use secrecy_10::ExposeSecret;
+        self.expose_secret().to_vec().to_cell(t)
+    }
+}
+
 // --- borrowed / serialize-only carriers: newtypes that own the data and delegate to the real impl
 
 macro_rules! delegating {
@@ -483,7 +508,16 @@ tuple_carrier!(2; A 0, B 1);
 tuple_carrier!(3; A 0, B 1, C 2);
 tuple_carrier!(4; A 0, B 1, C 2, D 3);
 tuple_carrier!(5; A 0, B 1, C 2, D 3, E 4);
+tuple_carrier!(6; A 0, B 1, C 2, D 3, E 4, F 5);
+tuple_carrier!(7; A 0, B 1, C 2, D 3, E 4, F 5, G 6);
 tuple_carrier!(8; A 0, B 1, C 2, D 3, E 4, F 5, G 6, H 7);
+tuple_carrier!(9; A 0, B 1, C 2, D 3, E 4, F 5, G 6, H 7, I 8);
+tuple_carrier!(10; A 0, B 1, C 2, D 3, E 4, F 5, G 6, H 7, I 8, J 9);
+tuple_carrier!(11; A 0, B 1, C 2, D 3, E 4, F 5, G 6, H 7, I 8, J 9, K 10);
+tuple_carrier!(12; A 0, B 1, C 2, D 3, E 4, F 5, G 6, H 7, I 8, J 9, K 10, L 11);
+tuple_carrier!(13; A 0, B 1, C 2, D 3, E 4, F 5, G 6, H 7, I 8, J 9, K 10, L 11, M 12);
+tuple_carrier!(14; A 0, B 1, C 2, D 3, E 4, F 5, G 6, H 7, I 8, J 9, K 10, L 11, M 12, N 13);
+tuple_carrier!(15; A 0, B 1, C 2, D 3, E 4, F 5, G 6, H 7, I 8, J 9, K 10, L 11, M 12, N 13, O 14);
 tuple_carrier!(16; A 0, B 1, C 2, D 3, E 4, F 5, G 6, H 7, I 8, J 9, K 10, L 11, M 12, N 13, O 14, P 15);
 
 impl Carrier for CqlValue {
@@ -581,9 +615,18 @@ borrowed_deser!(de_decimal_b, CqlDecimalBorrowed<'_>, |x, _t| {
     CqlValue::Decimal(CqlDecimal::from_signed_be_bytes_slice_and_exponent(b, sc))
 });
 
+fn decode_full<C>(t: &Ty, bytes: &[u8]) -> Result<Cell, String>
+where
+    C: Carrier + for<'f, 'm> DeserializeValue<'f, 'm>,
+{
+    deser_with::<C>(t, bytes).map(|x| x.to_cell(t))
+}
+
 pub struct Entry {
     pub name: String,
     pub deser: Option<BorrowedDeser>,
+    /// the carrier's own decoder on arbitrary bytes (one [bytes] item), embedded back
+    pub decode: Option<fn(&Ty, &[u8]) -> Result<Cell, String>>,
     pub run: fn(&Ty, &Cell) -> Result<String, String>,
     pub gen_type: fn(&mut Rng) -> Ty,
     pub embed: fn(&Ty, &Cell) -> Option<Cell>,
@@ -593,12 +636,12 @@ fn embed_of<C: Carrier>(t: &Ty, c: &Cell) -> Option<Cell> {
 }
 macro_rules! full {
     ($($ty:ty),* $(,)?) => { vec![$(Entry {
-        name: stringify!($ty).split_whitespace().collect::<String>(), deser: None,
+        name: stringify!($ty).split_whitespace().collect::<String>(), deser: None, decode: Some(decode_full::<$ty>),
         run: run_full::<$ty>, gen_type: <$ty as Carrier>::gen_type, embed: embed_of::<$ty> }),*] };
 }
 macro_rules! ser_only {
     ($($ty:ty),* $(,)?) => { vec![$(Entry {
-        name: stringify!($ty).split_whitespace().collect::<String>(), deser: None,
+        name: stringify!($ty).split_whitespace().collect::<String>(), deser: None, decode: None,
         run: run_ser_only::<$ty>, gen_type: <$ty as Carrier>::gen_type, embed: embed_of::<$ty> }),*] };
 }
 
@@ -627,6 +670,16 @@ pub fn registry() -> Vec<Entry> {
         (Option<i8>, Option<f32>, Option<(i32, String)>), (Vec<i32>, BTreeMap<i32, i32>), (i32, i32, i32, Option<String>),
         (CqlValue, Option<CqlValue>),
         (i32, Option<String>, i64, bool, Option<f64>),
+        (Option<i32>, Option<i32>, Option<i32>, Option<i32>, Option<i32>, Option<String>),
+        (Option<i32>, Option<i32>, Option<i32>, Option<i32>, Option<i32>, Option<i32>, Option<String>),
+        (Option<i32>, Option<i32>, Option<i32>, Option<i32>, Option<i32>, Option<i32>, Option<i32>, Option<i32>, Option<String>),
+        (Option<i32>, Option<i32>, Option<i32>, Option<i32>, Option<i32>, Option<i32>, Option<i32>, Option<i32>, Option<i32>, Option<String>),
+        (Option<i32>, Option<i32>, Option<i32>, Option<i32>, Option<i32>, Option<i32>, Option<i32>, Option<i32>, Option<i32>, Option<i32>, Option<String>),
+        (Option<i32>, Option<i32>, Option<i32>, Option<i32>, Option<i32>, Option<i32>, Option<i32>, Option<i32>, Option<i32>, Option<i32>, Option<i32>, Option<String>),
+        (Option<i32>, Option<i32>, Option<i32>, Option<i32>, Option<i32>, Option<i32>, Option<i32>, Option<i32>, Option<i32>, Option<i32>, Option<i32>, Option<i32>, Option<String>),
+        (Option<i32>, Option<i32>, Option<i32>, Option<i32>, Option<i32>, Option<i32>, Option<i32>, Option<i32>, Option<i32>, Option<i32>, Option<i32>, Option<i32>, Option<i32>, Option<String>),
+        (Option<i32>, Option<i32>, Option<i32>, Option<i32>, Option<i32>, Option<i32>, Option<i32>, Option<i32>, Option<i32>, Option<i32>, Option<i32>, Option<i32>, Option<i32>, Option<i32>, Option<String>),
+        secrecy_10::SecretString, secrecy_10::SecretSlice<i32>,
         (i8, i16, i32, i64, Option<String>, Option<bool>, Vec<i32>, Option<uuid::Uuid>),
         (Option<i32>, Option<i32>, Option<i32>, Option<i32>, Option<i32>, Option<i32>, Option<i32>, Option<i32>,
          Option<i64>, Option<i64>, Option<i64>, Option<i64>, Option<String>, Option<String>, Option<bool>, Option<f32>),
@@ -794,4 +847,57 @@ pub fn gen_cells_case(r: &mut Rng) -> String {
         let dim = if r.chance(1, 20) { n + 1 } else { n };
         format!("V {} {} {:x} {}", carrier, s_type(&e), dim, s_cells(&cells))
     }
+}
+
+// ------------------------------------------------------------------ typed decoders on arbitrary bytes (kind E)
+
+pub fn run_decode(carrier: &str, t: &Ty, bytes: &[u8]) -> Result<String, String> {
+    REG.with(|reg| {
+        let e = reg.iter().find(|e| e.name == carrier).ok_or(format!("unknown carrier {}", carrier))?;
+        if let Some(d) = e.decode {
+            let (t2, b2) = (t.clone(), bytes.to_vec());
+            return Ok(match catch(std::panic::AssertUnwindSafe(move || d(&t2, &b2))) {
+                Ok(r) => fmt_deser(&r),
+                Err(_) => "panic".into(),
+            });
+        }
+        if let Some(d) = e.deser {
+            return Ok(match d(t, bytes) {
+                Some(r) => fmt_deser(&r),
+                None => "err:TypeCheck".into(),
+            });
+        }
+        Err(format!("carrier {} has no decoder", carrier))
+    })
+}
+
+/// a carrier with a decoder that the Coq model of the typed codec covers, a type it accepts, and the
+/// encoding of a value of that type: intact, corrupted, or a null cell
+pub fn gen_decode_case(r: &mut Rng, mutate: &dyn Fn(&mut Rng, &[u8]) -> Vec<u8>) -> Option<String> {
+    REG.with(|reg| {
+        for _ in 0..16 {
+            let e = &reg[r.below(reg.len() as u64) as usize];
+            if (e.decode.is_none() && e.deser.is_none())
+                || ["chrono::", "time::", "bigdecimal::"].iter().any(|p| e.name.contains(p))
+                || e.name.starts_with("Hash")
+            {
+                continue;
+            }
+            let t = (e.gen_type)(r);
+            if s_type(&t).contains(";0)") {
+                continue;
+            }
+            let bytes = match r.below(12) {
+                0 => vec![0xff, 0xff, 0xff, 0xff],   // a null cell: Option -> None, Vec / map -> empty, others refuse
+                1 => vec![0, 0, 0, 0],               // a zero-length cell
+                _ => {
+                    let c = Cell::Val(gen_value(r, &t, 0));
+                    let b = ser_dynamic(&t, &c).unwrap_or_default();
+                    if r.chance(1, 3) { b } else { mutate(r, &b) }
+                }
+            };
+            return Some(format!("E {} {} {}", e.name, s_type(&t), hex_bytes(&bytes)));
+        }
+        None
+    })
 }
